@@ -125,6 +125,19 @@ EXPECT_WRAP = '''def F(v0, v1, *args, **kwargs):
     v0.__dict__.update(v6.__dict__)
     return v3'''
 
+# the loop after the repair of "a parser returning None ends detection": None counts as that parser's complaint
+EXPECT_WRAP_NONE_CONTINUES = EXPECT_WRAP.replace(
+    """            v3 = v7(*args, **kwargs)
+            v0.format = v5
+            break
+""", """            v3 = v7(*args, **kwargs)
+            if v3 is None:
+                v4.append('%s: no structure found' % v5)
+                continue
+            v0.format = v5
+            break
+""")
+
 EXPECT_FORMATS = '''def F():
     v0 = [v1 for v1, v2 in parser_index.items() if v2['%s']]
     v0.sort()
@@ -192,8 +205,13 @@ def detection_loop():
     w = find_func(tree, "_wrapParseMethod", "P_auto")
     if w is None:
         raise TranslatorRefusal("p_auto.py: P_auto._wrapParseMethod not found")
-    if normalised(w, wildcard_handlers=True) != EXPECT_WRAP:
-        _refuse(fn, w, "_wrapParseMethod is not the detection loop the model implements:\n" + normalised(w, True))
+    shape = normalised(w, wildcard_handlers=True)
+    if shape == EXPECT_WRAP:
+        none_continues = False
+    elif shape == EXPECT_WRAP_NONE_CONTINUES:
+        none_continues = True
+    else:
+        _refuse(fn, w, "_wrapParseMethod is not the detection loop the model implements:\n" + shape)
     handlers = []
     for node in ast.walk(w):
         if isinstance(node, ast.Try):
@@ -224,7 +242,7 @@ def detection_loop():
         g = find_func(tree2, nm)
         if g is None or normalised(g) != EXPECT_FORMATS % fld:
             _refuse(fn2, g or tree2, "%s is not `sorted names with %s`" % (nm, fld))
-    return handlers
+    return handlers, none_continues
 
 
 def coq_str(s):
@@ -233,7 +251,7 @@ def coq_str(s):
 
 def generate():
     reg = registry()
-    handlers = detection_loop()
+    handlers, none_continues = detection_loop()
     L = ["(* GENERATED by translate/c12_index.py from parsers/parser_index_mod.py, parsers/__init__.py, parsers/p_auto.py *)",
          "From Coq Require Import List String Bool.", "From DS Require Import Base.C13_Exn.", "Import ListNotations.",
          "Open Scope string_scope.", "",
@@ -252,6 +270,8 @@ def generate():
     L.append("(* except clauses of P_auto._wrapParseMethod, in source order: the first collects `fmt: message`, the second skips *)")
     L.append("Definition auto_collect_caught : list kind := [%s]." % "; ".join(handlers[0]))
     L.append("Definition auto_skip_caught : list kind := [%s]." % "; ".join(handlers[1]))
+    L.append("(* a parser that returns None: true = recorded as `fmt: no structure found` and detection continues; false = detection stops *)")
+    L.append("Definition auto_none_continues : bool := %s." % ("true" if none_continues else "false"))
     return {"Gen/C12_ParserIndex.v": "\n".join(L) + "\n"}
 
 
